@@ -634,6 +634,12 @@ func (s *Server) handleLCPTermRequest(session *Session, pkt *LCPPacket) {
 
 	// Terminate session
 	session.SetState(StateClosed)
+
+	// Release IP
+	if s.clientIPPool != nil {
+		s.clientIPPool.Release(session.SessionID)
+	}
+
 	s.sessions.RemoveSession(session.ID)
 }
 
